@@ -87,8 +87,7 @@ def check(ctx, adt=T.ANIM_ADT, F=None):
         if ups:
             u = ups[0]
             a = u["descs"][2]
-            ok = len(ups) == 1 and a[0] == "call" and a[1] == "core::time::Duration::as_secs_f32" and \
-                a[2] == (("&", fin["time"]),) and \
+            ok = len(ups) == 1 and a in T.as_seconds(fin["time"]) and \
                 u["args"][1] == ("ref", cell, (("field", R["current_values"]),), True) and \
                 u["args"][0][0] == "ref" and ("entry", init("current_state")) in u["args"][0][2]
             ctx.ob("R2", inst + "/absolute-time[%d]" % n, ok,
